@@ -68,9 +68,11 @@ def run(chk, replay=None):
         niter = 3
         nkills = 0
         # plain-tmpdir: the name of the temporary file is taken by a directory, so that it cannot be created (nothing is written then)
-        for kind in ("plain", "mpi", "mc", "vegas", "plain-tmpdir"):
+        # plain-tmpname: the checkpoint's own name ends in ".tmp"
+        for kind in ("plain", "mpi", "mc", "vegas", "plain-tmpdir", "plain-tmpname"):
             exe = exe_mpi if kind == "mpi" else exe_serial
             xkind = kind.split("-")[0]
+            tname = "chk.tmp" if kind.endswith("-tmpname") else "chk.txt"
             ref = os.path.join(work, kind, "ref")
             w = os.path.join(work, kind, "w")
             os.makedirs(ref)
@@ -78,7 +80,7 @@ def run(chk, replay=None):
             vt.run([exe, xkind, os.path.join(ref, "chk.txt"), str(niter), ref], timeout=300)
             refs = {k: open(os.path.join(ref, "ref_%d.txt" % k), "rb").read() for k in range(1, niter + 1)}
             final = open(os.path.join(ref, "chk.txt.final"), "rb").read()
-            target = os.path.join(w, "chk.txt")
+            target = os.path.join(w, tname)
 
             def one(kill):
                 shutil.rmtree(w)
@@ -92,8 +94,8 @@ def run(chk, replay=None):
                 if kill:
                     env["VT_KILL_AT"] = kill
                 r = vt.run([exe, xkind, target, str(niter), "-"], env=env, timeout=300, ok_codes=None)
-                evs = [{"e": "Reset", "kind": kind, "target": "chk.txt", "kill": kill or "", "rc": r.returncode}] + syslog_events(syslog)
-                evs = [e for e in evs if e.get("path", "") != "chk.txt.final"]
+                evs = [{"e": "Reset", "kind": kind, "target": tname, "kill": kill or "", "rc": r.returncode}] + syslog_events(syslog)
+                evs = [e for e in evs if e.get("path", "") != tname + ".final"]
                 # the process dies with the call it is killed at: what other threads (ranks of the shim) still log between that line and
                 # the actual exit of the process is not part of the run
                 kpos = next((i for i, e in enumerate(evs) if e["e"] == "Killed"), None)
@@ -113,7 +115,7 @@ def run(chk, replay=None):
                     os.remove(syslog2)
                 vt.run([exe, xkind, target, str(niter), "-"], env={"VT_SYSLOG": syslog2, "VT_WATCH_DIR": w, "LD_PRELOAD": lib}, timeout=300, ok_codes=None)
                 evs.append({"e": "Restart"})
-                evs += [e for e in syslog_events(syslog2) if e.get("path", "") != "chk.txt.final" and e["e"] != "Killed"]
+                evs += [e for e in syslog_events(syslog2) if e.get("path", "") != tname + ".final" and e["e"] != "Killed"]
                 fin = open(target + ".final", "rb").read() if os.path.exists(target + ".final") else b""
                 evs.append({"e": "Resumed", "equal": 1 if fin == final else 0})
                 return evs
